@@ -296,4 +296,9 @@ def run(ctx):
     ctx.product("deep-paths", cases, execute)
     from ..bfs import bfs
     bfs(ctx, "by_path-histories-on-one-wallet", ByPathHistories(), 3 if ctx.thorough else 2)
+    from ..bfs import long_histories
+    long_histories(ctx, "by_path-histories-on-one-wallet+long", ByPathHistories(), rotations=12 if ctx.thorough else 4, rounds=2)
+    from ..bfs import eviction_probe
+    eviction_probe(ctx, "by_path-histories-on-one-wallet+revisits", ByPathHistories(), lambda i: "m/0/%d/%d'" % (i, i % 3),
+                   sizes=(1, 2, 3, 4, 5, 8, 9, 16, 17, 32, 33))
     return {}
